@@ -567,7 +567,7 @@ C09 = [
       inst=I([P(n=8, p=1)], [P(n=n, p=p) for n in (4, 8) for p in (0, 1)] + [P(n=12, p=0, w=[64])], [P(n=16, p=1), P(n=32, p=0)])),
     E('bit.print_dec_uint', 'bit/output.fj', 'def print_dec_uint n, x', 'bit.print_dec_uint {n}, {a}', [('a', 'bit', 'n')],
       'bit_print_dec_uint {n}', temps=T_BITDEC,
-      inst=I([P(n=3), P(n=8)], [P(n=n) for n in (1, 2, 3, 4, 7, 8, 10)] + [P(n=12, w=[64]), P(n=16, w=[64])], [P(n=16), P(n=32)])),
+      inst=I([P(n=3), P(n=8)], [P(n=n) for n in (1, 2, 3, 4, 7, 8, 10)] + [P(n=12, w=[64])], [P(n=16), P(n=32)])),
     E('bit.print_dec_int', 'bit/output.fj', 'def print_dec_int n, x', 'bit.print_dec_int {n}, {a}', [('a', 'bit', 'n')],
       'bit_print_dec_int {n}', temps=T_BITDEC + [('neg', '1')],
       inst=I([P(n=8)], [P(n=n) for n in (2, 4, 8, 10)] + [P(n=12, w=[64])], [P(n=16), P(n=32)])),
@@ -602,17 +602,17 @@ C09 = [
     E('hex.input_dec_uint_until', 'hex/input.fj', 'def input_dec_uint_until n, dst, stop_byte',
       'hex.input_dec_uint_until {n}, {a}, {b}', [('a', 'hex', 'n'), ('b', 'hex', '2')], 'hex_input_dec_uint_until {n}',
       temps=T_DECIN, io={'dom': {'a': 'pin', 'b': 'pin'}},
-      inst=I([P(n=2, A='dec12', L=3)], [P(n=1, A='dec12', L=4, w=[64]), P(n=2, A='dec12', L=4)], [P(n=4, A='dec12', L=7), P(n=8, A='dec12', L=12)])),
+      inst=I([P(n=2, A='dec12', L=3)], [P(n=1, A='dec12', L=3), P(n=2, A='dec12', L=3)], [P(n=4, A='dec12', L=7), P(n=8, A='dec12', L=12)])),
     E('hex.input_dec_int_until', 'hex/input.fj', 'def input_dec_int_until n, dst, stop_byte',
       'hex.input_dec_int_until {n}, {a}, {b}', [('a', 'hex', 'n'), ('b', 'hex', '2')], 'hex_input_dec_int_until {n}',
       temps=T_DECIN, io={'dom': {'a': 'pin', 'b': 'pin'}},
-      inst=I([P(n=2, A='dec12', L=3)], [P(n=1, A='dec12', L=4, w=[64]), P(n=2, A='dec12', L=4)], [P(n=4, A='dec12', L=7), P(n=8, A='dec12', L=12)])),
+      inst=I([P(n=2, A='dec12', L=3)], [P(n=1, A='dec12', L=3), P(n=2, A='dec12', L=3)], [P(n=4, A='dec12', L=7), P(n=8, A='dec12', L=12)])),
     E('hex.input_dec_uint', 'hex/input.fj', 'def input_dec_uint n, dst, error', 'hex.input_dec_uint {n}, {a}, {x1}',
       [('a', 'hex', 'n')], 'hex_input_dec_uint {n}', exits=1, temps=T_DECIN, io={'dom': {'a': 'pin'}},
-      inst=I([P(n=2, A='dec12', L=3)], [P(n=1, A='dec12', L=4, w=[64]), P(n=2, A='dec12', L=4)], [P(n=4, A='dec12', L=7), P(n=8, A='dec12', L=12)])),
+      inst=I([P(n=2, A='dec12', L=3)], [P(n=1, A='dec12', L=3), P(n=2, A='dec12', L=3, w=[32]), P(n=2, A='dec12', L=4, w=[64])], [P(n=4, A='dec12', L=7), P(n=8, A='dec12', L=12)])),
     E('hex.input_dec_int', 'hex/input.fj', 'def input_dec_int n, dst, error', 'hex.input_dec_int {n}, {a}, {x1}',
       [('a', 'hex', 'n')], 'hex_input_dec_int {n}', exits=1, temps=T_DECIN, io={'dom': {'a': 'pin'}},
-      inst=I([P(n=2, A='dec12', L=3)], [P(n=1, A='dec12', L=4, w=[64]), P(n=2, A='dec12', L=4)], [P(n=4, A='dec12', L=7), P(n=8, A='dec12', L=12)])),
+      inst=I([P(n=2, A='dec12', L=3)], [P(n=1, A='dec12', L=3), P(n=2, A='dec12', L=3, w=[32]), P(n=2, A='dec12', L=4, w=[64])], [P(n=4, A='dec12', L=7), P(n=8, A='dec12', L=12)])),
     # ---- bit/casting.fj
     E('bit.str', 'bit/casting.fj', 'def str str', 'bit.print_str 4, {pre}_s', [], 'stl_output_str 2189640',
       io={'data': ['{pre}_s: bit.str "Hi!"']}, inst=I([P()], [P()]),
@@ -646,7 +646,7 @@ C09 = [
       inst=I([P(n=2)], [P(n=1), P(n=2), P(n=3), P(n=4, w=[64])], [P(n=8), P(n=16)])),
     E('roundtrip bit->hex->bit', 'casting.fj', 'def bit2hex n, hex, bit', 'stl.bit2hex {n}, {b}, {a}\n    stl.hex2bit {n}/4, {c}, {b}',
       [('a', 'bit', 'n'), ('b', 'hex', 'n//4'), ('c', 'bit', 'n')], 'cast_roundtrip3', io={'dom': {'b': 'pin', 'c': 'pin'}},
-      inst=I([P(n=8)], [P(n=4), P(n=8), P(n=12), P(n=16, w=[64])], [P(n=32), P(n=64)])),
+      inst=I([P(n=8)], [P(n=4), P(n=8), P(n=12)], [P(n=16), P(n=32), P(n=64)])),
     E('roundtrip hex->ascii->hex', 'bit/casting.fj', 'def hex2ascii ascii, hex', 'bit.hex2ascii {a}, {b}\n    bit.ascii2hex {e}, {c}, {a}',
       [('a', 'bit', '8'), ('b', 'bit', '4'), ('e', 'bit', '1'), ('c', 'bit', '4')], 'ascii_roundtrip 16', temps=[('carry', '1')],
       io={'dom': {'a': 'pin'}}, inst=I([P()], [P()]),
@@ -671,7 +671,7 @@ C09 = [
     E('echo hex.input_dec_int;hex.print_dec_int', 'hex/input.fj', 'def input_dec_int n, dst, error',
       'hex.input_dec_int {n}, {a}, {x1}\n    hex.print_dec_int {n}, {a}', [('a', 'hex', 'n')], 'echo_dec_int {n}', exits=1,
       temps=T_DECIN + T_HEXDEC, io={'dom': {'a': 'pin'}},
-      inst=I([P(n=2, A='dec12', L=3)], [P(n=2, A='dec12', L=4, w=[64])]),
+      inst=I([P(n=2, A='dec12', L=3)], [P(n=2, A='dec12', L=3)]),
       note='the text printed is the canonical decimal form (sign, no leading zeros) of the number read, mod 16^n'),
     E('echo hex.input_as_hex;hex.print_as_digit', 'hex/input.fj', 'def input_as_hex n, hex, error',
       'hex.input_as_hex {n}, {a}, {x1}\n    hex.print_as_digit {n}, {a}, 0', [('a', 'hex', 'n')], 'echo_hex_digits {n}', exits=1,
